@@ -21,6 +21,8 @@ THEOREMS = {
     ],
     'RsomeV.Props.C02Conic': ['RsomeV.C02Conic.soc_strong_duality', 'RsomeV.C02Conic.coneDual_strong', 'RsomeV.C02Conic.coneDual_strong_attained',
                               'RsomeV.C02Conic.compact_layout_needs_free_tails'],
+    'RsomeV.Props.Lmi': ['RsomeV.Lmi.psd_trace_mul_nonneg', 'RsomeV.Lmi.lmi_dual_gap', 'RsomeV.Lmi.lmi_dual_weak', 'RsomeV.Lmi.lmi_dual_weak_symDual',
+                         'RsomeV.Lmi.lmi_dual_weak_symPrimal', 'RsomeV.Lmi.legacy_lmi_dual_not_weak', 'RsomeV.Lmi.ng_repaired_weak', 'RsomeV.Lmi.ng_repaired_tight'],
 }
 RULE = ("random deterministic / ro models built through the public API with every bound pattern per variable "
         "(free, >=0, <=0, finite lower, finite upper, both, fixed zero, fixed non-zero), <=, >=, == rows, "
@@ -62,7 +64,42 @@ def _classify(pj, dj):
     return sorted(set(tags))
 
 
+def lmi_dual_probe(ctx):
+    """no semidefinite solver is installed: weak duality of the LMI dual is probed on pinned programs with explicit points.
+    min -x s.t. x <= 0 (or x >= 0 mirrored), (-x - 1) I >> 0 has optimum 1; a dual-feasible point of larger value refutes duality"""
+    from rsome import gcp
+    for sgn, label in ((1.0, 'ub=0'), (-1.0, 'lb=0')):
+        ctx.search_cases += 1; ctx.evaluations += 1
+        case = {"lmi_probe": label}
+        try:
+            with C.quiet():
+                m = gcp.Model(); x = m.dvar(1)
+                if sgn > 0:
+                    m.min(-x[0]); m.st(x <= 0); m.st((-x[0]) * np.eye(2) - np.eye(2) >> 0)
+                else:
+                    m.min(x[0]); m.st(x >= 0); m.st(x[0] * np.eye(2) - np.eye(2) >> 0)
+                D = m.do_math(primal=False)
+            A = C.dense(D.linear); nY = 4; ny = A.shape[1] - nY
+            hit = None
+            for yv in ([0.0, -1.0], [0.0, 1.0], [0.0, 0.0]):
+                for tY in (5.0, 50.0):
+                    w = np.array(list(yv)[:ny] + [tY, 0.0, 0.0, tY])
+                    res = A @ w - D.const
+                    ok = all((abs(v) < 1e-9) if s_ else (v < 1e-9) for v, s_ in zip(res, D.sense)) and np.all(w <= D.ub + 1e-9) and np.all(w >= D.lb - 1e-9)
+                    val = -float(D.obj @ w)
+                    if ok and val > 1.0 + 1e-6:
+                        hit = {"dual_point": w.tolist(), "dual_value": val, "primal_optimum": 1.0}
+            if hit:
+                ctx.hit('lmi-dual-not-weak', hit, case)
+            else:
+                ctx.count('lmi-probe:weak-duality-holds:' + label)
+        except Exception as ex:
+            ctx.count('lmi-probe:error:' + type(ex).__name__)
+
+
 def run(ctx):
+    lmi_dual_probe(ctx)
+    C.run_difftest(ctx, 'test_lmi.py', ctx.n(60, 1000), 'gcp.Model.do_math(primal=False) with LMI blocks; le_to_rc LMI rows')
     n_cases = ctx.n(150, 2500)
     n_search = ctx.n(30, 400)
     cases = []
@@ -123,7 +160,7 @@ def run(ctx):
         ctx.sample({"kind": kind, "tags": desc.get('tags'), "primal_shape": [pj['nr'], pj['nc']],
                     "dual_shape": [dj['nr'], dj['nc']], "qmat": pj['qmat'], "xmat": pj['xmat']})
     # ---- search: solve primal and dual -----------------------------------------------------
-    order = sorted(range(len(cases)), key=lambda i: 0 if any(dg['case']['primal'] is cases[i][4] for dg in ctx.disagreements) else 1)
+    order = sorted(range(len(cases)), key=lambda i: 0 if any(isinstance(dg.get('case'), dict) and dg['case'].get('primal') is cases[i][4] for dg in ctx.disagreements) else 1)
     for i in order[:n_search]:
         kind, desc, m, p, pj, d, dj = cases[i]
         if pj.get('nlmi') or kind == 'support':
